@@ -8,6 +8,7 @@ import (
 	"os"
 	"path/filepath"
 	"reflect"
+	"sort"
 	"strings"
 	"testing"
 	"time"
@@ -298,6 +299,14 @@ func TestGenEnvs(t *testing.T) {
 	r := hx.Rand()
 	perVersion := hx.IntEnv("VERIF_TV_PER_VERSION", 1)
 	g := &envGen{}
+	// the versions the code supports must be the ones this harness covers
+	supported := cluster.SupportedVersionsForT(t)
+	sort.Strings(supported)
+	mine := append([]string{}, Versions...)
+	sort.Strings(mine)
+	if strings.Join(supported, ",") != strings.Join(mine, ",") {
+		g.golden = append(g.golden, "versions: the code supports "+strings.Join(supported, ",")+" but the harness covers "+strings.Join(mine, ","))
+	}
 	for _, v := range Versions {
 		// golden files of the repository
 		fn := strings.ReplaceAll(v, ".", "_")
